@@ -358,7 +358,7 @@ package psatoken
 //@   modifies c.VSI
 
 //@ func (*P1Claims).SetSoftwareComponents
-//@   property C11 C05 C13
+//@   property C11 C05 C13 C10
 //@   requires c != nil && wfComps(c.SwComponents) && inputComps(scs)
 //@   ensures[flag] scs == nil ==> ret == nil && c.SwComponents == nil && c.NoSwMeasurements != nil && *c.NoSwMeasurements == 1 && fresh(c.NoSwMeasurements)
 //@   ensures[iff] scs != nil ==> ((ret == nil) == inputCompsValid(scs))
